@@ -241,6 +241,26 @@ func c03Version(c *Ctx) {
 							if n == "encoding/json.Unmarshal" || n == "(*encoding/json.Decoder).Decode" {
 								decodeTarget = true
 							}
+							// ... or to a decoding helper that hands its parameter to the decoder
+							if sc := ir.StaticCallee(call); sc != nil && c.P.IsLib(sc) {
+								for i, a := range call.Common().Args {
+									if a != ssa.Value(x) || i >= len(sc.Params) {
+										continue
+									}
+									prm := sc.Params[i]
+									ir.EachCall(sc, func(ic ssa.CallInstruction) {
+										in2 := ir.CallName(ic)
+										if in2 != "encoding/json.Unmarshal" && in2 != "(*encoding/json.Decoder).Decode" {
+											return
+										}
+										for _, ia := range ic.Common().Args {
+											if ia == ssa.Value(prm) {
+												decodeTarget = true
+											}
+										}
+									})
+								}
+							}
 						}
 					}
 				case *ssa.FieldAddr:
